@@ -3,7 +3,7 @@ pub open spec fn dom_disjoint(ids: Set<u64>, st: Map<u64, F64>) -> bool { forall
 // what the epsilon-dropping merges of Quadratic/Polynomial::partial_evaluate remove (documented "dropping of coefficients below
 // machine epsilon"); 0 for constants and linear functions.  Uninterpreted: nothing is assumed about its size here.
 // quad_pe_rem: DEFINED in spec/qpe_spec.rs (entries of the exact linear part that Linear::new drops)
-pub uninterp spec fn poly_pe_rem(p: v1::Polynomial, st: Map<u64, F64>, m: Map<u64, F64>) -> real;
+// poly_pe_rem: DEFINED in spec/ppe_spec.rs (difference to the specified merge)
 pub open spec fn fn_pe_rem(f: v1::Function, st: Map<u64, F64>, m: Map<u64, F64>) -> real {
     match f.function {
         Some(v1::function::Function::Quadratic(q)) => quad_pe_rem(q, st, m),
@@ -16,7 +16,8 @@ pub open spec fn ids_in(ids: Set<u64>, st: Map<u64, F64>) -> Set<u64> { ids.inte
 pub open spec fn pe_rel(old: v1::Function, new: v1::Function, st: Map<u64, F64>, used: Set<u64>) -> bool {
     &&& dom_disjoint(fn_ids(new), st)                                   // no fixed variable is mentioned any more
     &&& fn_ids(new).subset_of(fn_ids(old))
-    &&& used =~= ids_in(fn_ids(old), st)                                // exactly the fixed variables that occurred
+    &&& used.subset_of(ids_in(fn_ids(old), st))                         // only fixed variables that actually occurred (the statement's wording; Linear and Quadratic
+                                                                       // prove equality in their own contracts, Polynomial skips terms with |c| <= EPSILON together with their ids)
     &&& fn_fin(old) && state_fin(st) ==> fn_fin(new)
     &&& fn_fin(old) && state_fin(st) ==> forall|m: Map<u64, F64>| #![trigger fn_val(new, m)] agree(st, m) ==> fn_val(new, m) == fn_val(old, m) - fn_pe_rem(old, st, m)
     &&& (old.function is None <==> new.function is None)
